@@ -102,7 +102,8 @@ def part_l(rep, tier, deadline):
             rep.add("L_all_positions_failures_explained_by_single")
             continue
         ver = base[f["name"]][2]
-        sig = f"L:{ver}:{f['kind']}:{f['outcome']}:{f['cls']}"
+        # parse errors are classified by the exception (+ offending token); changed flows by the kind of line
+        sig = f"L:{ver}:{f['kind']}:{f['outcome']}" + (f":{f['cls']}" if f["outcome"] == "flows-differ" else "")
         c = classes.setdefault(sig, {"n": 0, "ex": None})
         c["n"] += 1
         key = (len(texts[f["name"]]), f["name"], f["pos"] if f["pos"] is not None else -1)
@@ -129,18 +130,20 @@ def part_e(rep, tier, deadline):
     scratch = tempfile.mkdtemp(prefix="c13_")
     E._SCRATCH = scratch
     try:
-        tasks, k = E.e_tasks(tier)
-        rep.set("E_token_string_max_len", k)
-        planned = 0
+        # warm-up in the parent: lazy imports happen before the fork, not under a worker's CPU screen
+        for ver in ("2.x", "1.0"):
+            E.load(ver, "", mode="confirm")
+        tasks = E.e_tasks(tier)
+        rep.set("E_token_string_max_len", {f"{v}:ctx{c}": k for (v, c), k in E.SOUP_K[tier].items()})
         done = 0
         classes = {}
         spaces = {}
         for r in par.pmap(E.e_task, tasks, chunksize=2, deadline=deadline):
             done += 1
-            sp = spaces.setdefault(r["space"], {"loads": 0, "ok": 0, "parse_error": 0, "violations": 0})
+            sp = spaces.setdefault(r["space"], {"loads": 0, "ok": 0, "parse_error": 0, "violations": 0, "hang_suspects": 0})
             for key in sp:
                 sp[key] += r[key]
-            for key in ("loads", "ok", "parse_error", "import_error", "violations", "dup_texts", "planned"):
+            for key in ("loads", "ok", "parse_error", "import_error", "violations", "hang_suspects", "dup_texts", "planned"):
                 rep.add("E_" + key, r[key])
             for sig, c in r["classes"].items():
                 t = classes.get(sig)
@@ -148,6 +151,7 @@ def part_e(rep, tier, deadline):
                     classes[sig] = dict(c)
                 else:
                     t["n"] += c["n"]
+                    t["suspects"] = t["suspects"] + c["suspects"]
                     if (len(c["text"]), c["text"]) < (len(t["text"]), t["text"]):
                         t.update(text=c["text"], detail=c["detail"], meta=c["meta"])
         rep.set("E_by_space", spaces)
@@ -156,17 +160,62 @@ def part_e(rep, tier, deadline):
             prev = rep.cov.get("cap_hit")
             msg = f"part E stopped by the time cap after {done}/{len(tasks)} tasks"
             rep.set("cap_hit", (prev + "; " if prev else "") + msg)
+
+        # hang suspects: confirm the smallest suspect of every class with the 10 s wall-clock alarm
+        hang = {sig: c for sig, c in classes.items() if c["suspects"]}
+        confirmed = {}
+        if hang:
+            reps = [(c["ver"], c["text"]) for c in hang.values()]
+            res = {(v, t): (o, s2, d) for v, t, o, s2, d in par.pmap(E.confirm_task, reps, chunksize=1)}
+            retry = []
+            for sig, c in hang.items():
+                o, s2, d = res[(c["ver"], c["text"])]
+                rep.add("E_hang_representatives_rerun_10s")
+                if o == "hang":
+                    confirmed[sig] = d
+                else:
+                    retry += [(c["ver"], t, sig) for t in c["suspects"] if t != c["text"]]
+                    _late(rep, classes, c["ver"], c["text"], o, s2, d)
+            if retry:
+                for v, t, o, s2, d in par.pmap(E.confirm_task, [(v, t) for v, t, _s in retry], chunksize=1):
+                    rep.add("E_hang_suspects_rerun_10s")
+                    if o == "hang":
+                        sig = next(s for vv, tt, s in retry if (vv, tt) == (v, t))
+                        if sig not in confirmed:
+                            confirmed[sig] = d
+                            hang[sig].update(text=t)
+                    else:
+                        _late(rep, classes, v, t, o, s2, d)
+        rep.set("E_hang_classes_confirmed_10s", len(confirmed))
+        out = {}
         for sig in sorted(classes):
             c = classes[sig]
+            if c["suspects"]:
+                if sig not in confirmed:
+                    continue
+                c["detail"] = confirmed[sig] + f"; {len(c['suspects'])} candidate(s) exceeded the {E.SCREEN_CPU}s CPU screen"
+            if c["n"] == 0:
+                continue
+            out[sig] = c["n"]
             rep.violation(
                 sig,
                 f"RailsConfig.from_path [{c['ver']}] on x.co = {c['text']!r}: {c['detail']} "
                 f"({c['n']} candidate(s) in this class)",
                 {"part": "E", "ver": c["ver"], "text": c["text"], "meta": c["meta"]},
             )
-        return complete, {s: c["n"] for s, c in classes.items()}
+        return complete, out
     finally:
         shutil.rmtree(scratch, ignore_errors=True)
+
+
+def _late(rep, classes, ver, text, outcome, sig, detail):
+    """A hang suspect that terminated under the 10 s alarm: account for its real outcome."""
+    rep.add("E_hang_suspects_refuted")
+    if outcome == "violation":
+        c = classes.setdefault(sig, {"n": 0, "text": text, "detail": detail, "ver": ver, "meta": {}, "suspects": []})
+        c["n"] += 1
+    else:
+        rep.add("E_" + outcome)
 
 
 # ------------------------------------------------------------------ entry points
@@ -257,7 +306,7 @@ def replay(rp):
     scratch = tempfile.mkdtemp(prefix="c13_")
     E._SCRATCH = scratch
     try:
-        outcome, sig, det = E.load(rp["ver"], rp["text"])
+        outcome, sig, det = E.load(rp["ver"], rp["text"], mode="confirm")
         print("x.co =", repr(rp["text"]))
         print("expected: RailsConfig.from_path succeeds or raises ColangParsingError naming x.co")
         print("observed:", outcome, sig or "", det or "")
